@@ -1211,3 +1211,195 @@ Proof.
   eexists. split; [vm_compute; reflexivity|]. repeat split; vm_compute; reflexivity.
 Qed.
 (* ---- end audit round 2 ---- *)
+
+(* ==== round3 c10fb begin ==== *)
+(* ---- audit round 3, item 9: "strict parsing recovers the supplied addresses, ports, flags, options ..." stated on
+   the values the ACCESSORS of the SlicedPacket result return for the built bytes.
+   Composition (Builder/FieldsBack.v, FieldsBack2.v, FieldsBack3.v; no new model of Rust code):
+     C10_crate_parse_back   the slicer model returns Ok sp on the built bytes, view sp = expected_x
+     C03_fields_from_*      fields_of_packet sp (Parse/Fields.v: the accessor models of Parse/Access.v on the slices
+                            stored in sp) = spec_fields bs (view sp) (the RFC fields at the layers' positions)
+     evaluation             spec_fields bs (expected_x c |p|) = cfg_fields ..: layer by layer the field specification
+                            is evaluated on the encoders of the builder model (C08 / C09 / C15 layouts).
+   cfg_fields e c |p| ck xf is written from the configuration alone (pinned below):
+     Ethernet II   destination, source (48 bit numbers), ether type = link_announces c
+     Linux SLL     packet type, ARPHRD 1, address length, the 8 address octets, protocol = ether type of the net layer
+     802.1Q tag(s) PCP, DEI, VID as supplied, ether type 0x8100 (outer of two) / the net layer's
+     ARP           hardware / protocol type, sizes = the lengths of the sender addresses, operation, the four addresses
+     IPv4          ipv4_cfg (v4_final ..): version 4, IHL = 5 + |options| / 4, and every field of the serialised header
+                   v4_final (C10_consistent_ipv4: DSCP, ECN, identification, DF, MF, fragment offset, TTL, source,
+                   destination, options AS SUPPLIED; total length = actual size, protocol = next layer, checksum)
+     IPv4 AH       next header = transport number, payload len = icv words + 1, SPI, sequence number, ICV as supplied
+     IPv6          ipv6_cfg (v6_final ..): version 6, traffic class, flow label, hop limit, source, destination as
+                   supplied (C10_consistent_ipv6), payload length = actual size, next header = first following header
+     UDP           ports as supplied, length 8 + |p|, checksum ck
+     TCP           ports, sequence / acknowledgment number, data offset 5 + |options| / 4, NS CWR ECE URG ACK PSH RST SYN
+                   FIN, window, checksum ck, urgent pointer, options = the visible option bytes, all as supplied
+     ICMPv4/v6     type, code, checksum ck and octets 4..8 of the RFC 792 / 4443 layout of the configured message
+   ck = the transport checksum field, ck_is_rfc: the RFC 1071 value over pseudo header ++ segment with the field zeroed
+   (C10_checksums_verify).  Fragmenting configurations: no transport layer in the list (the slicer stops there).
+   PARTIAL in one respect: xf, the layers of the IPv6 EXTENSION HEADERS, is `ext6_fields bs c` = the C03 field
+   specification of the extension area [off_exts, off_exts + header_len) of the built bytes walked from the number the
+   IPv6 header announces (kinds / order / lengths: C10_next_protocol_fields, values: C10_layers_as_configured via the
+   C12 decoder) -- it is not evaluated to the configured header values here.  Full statement intended:
+     forall e c p bs, cfg_wf c = true -> bytes_ok p -> payload_admitted c (len p) = true -> build e c p = BOk bs ->
+       exists sp ck, crate_entry c bs = Ok sp /\ fields_of_packet sp = Ok (cfg_fields e c (len p) ck (ext6_cfg c))
+   with ext6_cfg c the per-header lists (next header, length octet, payload / fragment offset, M, identification /
+   AH fields) of the configured Ipv6Extensions in RFC 8200 order.  C10_crate_fields_back is that statement for every
+   configuration WITHOUT IPv6 extension headers (all link / VLAN / ARP / IPv4 (+options, +AH) / IPv6 / transport
+   paths); C10_crate_fields_back_partial covers the rest with xf as described. *)
+From EP Require Import Parse.Fields.
+From EP Require Import Builder.FieldsBack Builder.FieldsBack2 Builder.FieldsBack3.
+
+Theorem C10_crate_fields_back : forall e c p bs,
+  cfg_wf c = true -> bytes_ok p -> payload_admitted c (len p) = true -> build e c p = BOk bs ->
+  v6_exts_len c = 0 ->
+  exists sp ck, crate_entry c bs = Ok sp /\ view sp = expected_x c (len p) /\
+    ck < 65536 /\ ck_is_rfc c bs ck /\
+    fields_of_packet sp = Ok (cfg_fields e c (len p) ck []).
+Proof. exact crate_fields_back. Qed.
+Print Assumptions C10_crate_fields_back.
+
+Theorem C10_crate_fields_back_partial : forall e c p bs,
+  cfg_wf c = true -> bytes_ok p -> payload_admitted c (len p) = true -> build e c p = BOk bs ->
+  exists sp ck, crate_entry c bs = Ok sp /\ view sp = expected_x c (len p) /\
+    ck < 65536 /\ ck_is_rfc c bs ck /\
+    fields_of_packet sp = Ok (cfg_fields e c (len p) ck (ext6_fields bs c)).
+Proof. exact crate_fields_back_partial. Qed.
+Print Assumptions C10_crate_fields_back_partial.
+
+(* SlicedPacket::from_ether_type on a packet built without link layer: the same list *)
+Theorem C10_crate_fields_back_ether_type : forall e c p bs,
+  cfg_wf c = true -> bytes_ok p -> payload_admitted c (len p) = true -> build e c p = BOk bs ->
+  c_link c = LkNone ->
+  exists sp ck, EP.Parse.Cursor.SlicedPacket.from_ether_type (net_ether_type (c_net c)) bs = Ok sp /\
+    ck < 65536 /\ ck_is_rfc c bs ck /\
+    fields_of_packet sp = Ok (cfg_fields e c (len p) ck (ext6_fields bs c)).
+Proof. exact crate_fields_back_ether_type. Qed.
+Print Assumptions C10_crate_fields_back_ether_type.
+
+(* the evaluation step alone, for EVERY well-formed configuration that builds (no payload hypothesis): the RFC
+   fields at the configured offsets of the built bytes are the configured values *)
+Theorem C10_fields_at_offsets : forall e c p bs, cfg_wf c = true -> bytes_ok p -> build e c p = BOk bs ->
+  exists ck, ck < 65536 /\
+    (ck_pseudo c (len (drop (off_transport c) bs)) <> None -> is_fragmented_x c = false ->
+     ck = W bs (off_transport c + ck_field_off (c_transport c))) /\
+    spec_fields bs (expected_x c (len p)) = cfg_fields e c (len p) ck (ext6_fields bs c).
+Proof. exact spec_fields_built. Qed.
+Print Assumptions C10_fields_at_offsets.
+
+(* pin the meaning *)
+Check (eq_refl : cfg_fields = fun e c plen ck xf =>
+  cfg_link_fields c ++ cfg_vlan_fields c ++ cfg_net_fields e c plen xf ++ cfg_tr_fields c plen ck).
+Check (eq_refl : cfg_link_fields = fun c =>
+  match c_link c with
+  | LkNone => []
+  | LkEthernet2 s d => [(LEth, [(Fdst, FvN (be_num d)); (Fsrc, FvN (be_num s)); (Fether_type, FvN (link_announces c))])]
+  | LkLinuxSll pt vl a =>
+      [(LSll, [(Fpacket_type, FvN pt); (Fhw_type, FvN 1); (Faddr_len, FvN vl); (Faddr, FvBytes a);
+               (Fprotocol, FvN (net_ether_type (c_net c)))])]
+  end).
+Check (eq_refl : vlan_cfgf = fun v et =>
+  [(Fpcp, FvN (BitFields.Model.vlan_pcp v)); (Fdei, FvB (BitFields.Model.vlan_dei v));
+   (Fvid, FvN (BitFields.Model.vlan_id v)); (Fether_type, FvN et)]).
+Check (eq_refl : cfg_net_fields = fun e c plen xf =>
+  match c_net c with
+  | NtIpv4 h x =>
+      (LIpv4, ipv4_cfg (v4_final e h x (c_transport c) plen)) ::
+      match ExtChain.Model.auth4 x with
+      | Some a => [(LAuth, ah_cfg (ExtChain.Model.auth_set_next_header a (tr_ip_number (c_transport c))))]
+      | None => []
+      end
+  | NtIpv6 h x => (LIpv6, ipv6_cfg (v6_final h x (c_transport c) plen)) :: xf
+  | NtArp a => [(LArp, arp_cfg a)]
+  end).
+Check (eq_refl : ipv4_cfg = fun h =>
+  [(Fversion, FvN 4); (Fihl, FvN (5 + Ipv4.i4o_len (Ipv4.i4_options h) / 4));
+   (Fdscp, FvN (Ipv4.i4_dscp h)); (Fecn, FvN (Ipv4.i4_ecn h)); (Ftotal_len, FvN (Ipv4.i4_total_len h));
+   (Fident, FvN (Ipv4.i4_identification h)); (Fdf, FvB (Ipv4.i4_dont_fragment h));
+   (Fmf, FvB (Ipv4.i4_more_fragments h)); (Ffrag_off, FvN (Ipv4.i4_fragment_offset h));
+   (Fttl, FvN (Ipv4.i4_time_to_live h)); (Fprotocol, FvN (Ipv4.i4_protocol h));
+   (Fchecksum, FvN (Ipv4.i4_header_checksum h));
+   (Fsrc, FvN (be_num (Ipv4.i4_source h))); (Fdst, FvN (be_num (Ipv4.i4_destination h)));
+   (Foptions, FvBytes (take (Ipv4.i4o_len (Ipv4.i4_options h)) (Ipv4.i4o_buf (Ipv4.i4_options h))))]).
+Check (eq_refl : ipv6_cfg = fun h =>
+  [(Fversion, FvN 6); (Ftraffic_class, FvN (BitFields.Model.v6_traffic_class h));
+   (Fflow_label, FvN (BitFields.Model.v6_flow_label h)); (Fpayload_len, FvN (BitFields.Model.v6_payload_length h));
+   (Fnext_header, FvN (BitFields.Model.v6_next_header h)); (Fhop_limit, FvN (BitFields.Model.v6_hop_limit h));
+   (Fsrc, FvBytes (BitFields.Model.v6_source h)); (Fdst, FvBytes (BitFields.Model.v6_destination h))]).
+Check (eq_refl : tcp_cfg = fun t ck =>
+  [(Fsrc_port, FvN (Tcp.source_port t)); (Fdst_port, FvN (Tcp.destination_port t));
+   (Fseq, FvN (Tcp.sequence_number t)); (Fack_nr, FvN (Tcp.acknowledgment_number t));
+   (Fdata_offset, FvN (5 + Tcp.o_len (Tcp.options t) / 4));
+   (Fns, FvB (Tcp.ns t)); (Fcwr, FvB (Tcp.cwr t)); (Fece, FvB (Tcp.ece t)); (Furg, FvB (Tcp.urg t));
+   (Fack, FvB (Tcp.ack t)); (Fpsh, FvB (Tcp.psh t)); (Frst, FvB (Tcp.rst t)); (Fsyn, FvB (Tcp.syn t));
+   (Ffin, FvB (Tcp.fin t)); (Fwindow, FvN (Tcp.window_size t)); (Fchecksum, FvN ck);
+   (Furgent, FvN (Tcp.urgent_pointer t));
+   (Foptions, FvBytes (take (Tcp.o_len (Tcp.options t)) (Tcp.o_buf (Tcp.options t))))]).
+Check (eq_refl : cfg_tr_fields = fun c plen ck =>
+  match c_net c with
+  | NtArp _ => []
+  | _ =>
+    if is_fragmented_x c then []
+    else match c_transport c with
+         | TrNone _ => []
+         | TrUdp sp dp =>
+             [(LUdp, [(Fsrc_port, FvN sp); (Fdst_port, FvN dp); (Flength, FvN (8 + plen)); (Fchecksum, FvN ck)])]
+         | TrTcp t => [(LTcp, tcp_cfg t ck)]
+         | TrIcmpv4 t => [(LIcmp4, icmp_cfg (Checksum.ProtoSpec.icmp4_wire (c09_icmp4 t) 0) ck)]
+         | TrIcmpv6 t => [(LIcmp6, icmp_cfg (Checksum.ProtoSpec.icmp6_wire (c09_icmp6 t) 0) ck)]
+         end
+  end).
+Check (eq_refl : icmp_cfg = fun w0 ck =>
+  [(Ftype, FvN (B w0 0)); (Fcode, FvN (B w0 1)); (Fchecksum, FvN ck); (Fbytes4to8, FvBytes (take 4 (drop 4 w0)))]).
+Check (eq_refl : ck_is_rfc = fun c bs ck =>
+  let seg := drop (off_transport c) bs in
+  forall ph, ck_pseudo c (len seg) = Some ph -> is_fragmented_x c = false ->
+    ck = ck_value (c_transport c) (rfc1071 (ph ++ zero16_at (ck_field_off (c_transport c)) seg))).
+
+(* ---- non-vacuity ---- *)
+(* the documentation example (Ethernet II / IPv4 / UDP, 8 payload bytes): the hypotheses hold, no IPv6 extension
+   headers, and the accessors return the supplied MAC addresses, IPv4 addresses 192.168.1.1 -> 192.168.1.2, TTL 20,
+   DF, ports 21 -> 1234, with the derived total length 36, protocol 17, UDP length 16 and the two checksums *)
+Example C10_ex_crate_fields_back :
+  cfg_wf ex_cfg = true /\ bytes_ok ex_payload /\ payload_admitted ex_cfg 8 = true /\
+  build LE ex_cfg ex_payload = BOk ex_bytes /\ v6_exts_len ex_cfg = 0 /\
+  exists sp, crate_entry ex_cfg ex_bytes = Ok sp /\
+    fields_of_packet sp = Ok (cfg_fields LE ex_cfg 8 26495 []) /\
+    cfg_fields LE ex_cfg 8 26495 [] =
+      [(LEth, [(Fdst, FvN 7731092785932); (Fsrc, FvN 1108152157446); (Fether_type, FvN 2048)]);
+       (LIpv4, [(Fversion, FvN 4); (Fihl, FvN 5); (Fdscp, FvN 0); (Fecn, FvN 0); (Ftotal_len, FvN 36);
+                (Fident, FvN 0); (Fdf, FvB true); (Fmf, FvB false); (Ffrag_off, FvN 0); (Fttl, FvN 20);
+                (Fprotocol, FvN 17); (Fchecksum, FvN 58229); (Fsrc, FvN 3232235777); (Fdst, FvN 3232235778);
+                (Foptions, FvBytes [])]);
+       (LUdp, [(Fsrc_port, FvN 21); (Fdst_port, FvN 1234); (Flength, FvN 16); (Fchecksum, FvN 26495)])].
+Proof.
+  split; [vm_compute; reflexivity|]. split; [apply bytes_okb_spec; vm_compute; reflexivity|].
+  split; [vm_compute; reflexivity|]. split; [vm_compute; reflexivity|]. split; [vm_compute; reflexivity|].
+  eexists. split; [vm_compute; reflexivity|]. split; vm_compute; reflexivity.
+Qed.
+(* two VLAN tags / IPv6 with hop-by-hop + fragment header / TCP with options (C10_crate_fields_back_partial): the
+   accessor values of link, both tags, IPv6 and TCP are the supplied ones; on this instance the extension part
+   ext6_fields evaluates to the two configured headers *)
+Example C10_ex_crate_fields_back_x :
+  cfg_wf ex_cfg_tcp6 = true /\ payload_admitted ex_cfg_tcp6 3 = true /\ v6_exts_len ex_cfg_tcp6 = 16 /\
+  exists bs sp ck, build LE ex_cfg_tcp6 [1; 2; 3] = BOk bs /\
+    EP.Parse.Cursor.SlicedPacket.from_ethernet bs = Ok sp /\
+    fields_of_packet sp = Ok (cfg_fields LE ex_cfg_tcp6 3 ck (ext6_fields bs ex_cfg_tcp6)) /\
+    ext6_fields bs ex_cfg_tcp6 =
+      [(LHopByHop, [(Fnext_header, FvN 44); (Flen_byte, FvN 0); (Fpayload, FvBytes [1; 4; 0; 0; 0; 0])]);
+       (LFragment, [(Fnext_header, FvN 6); (Ffrag_off, FvN 0); (Fmf, FvB false); (Fident, FvN 99)])] /\
+    cfg_vlan_fields ex_cfg_tcp6 =
+      [(LVlan, [(Fpcp, FvN 1); (Fdei, FvB false); (Fvid, FvN 100); (Fether_type, FvN 33024)]);
+       (LVlan, [(Fpcp, FvN 2); (Fdei, FvB true); (Fvid, FvN 200); (Fether_type, FvN 34525)])] /\
+    cfg_tr_fields ex_cfg_tcp6 3 ck =
+      [(LTcp, [(Fsrc_port, FvN 80); (Fdst_port, FvN 40000); (Fseq, FvN 305419896); (Fack_nr, FvN 2271560481);
+               (Fdata_offset, FvN 6); (Fns, FvB true); (Fcwr, FvB false); (Fece, FvB true); (Furg, FvB false);
+               (Fack, FvB true); (Fpsh, FvB true); (Frst, FvB false); (Fsyn, FvB true); (Ffin, FvB false);
+               (Fwindow, FvN 65535); (Fchecksum, FvN ck); (Furgent, FvN 7); (Foptions, FvBytes [2; 4; 5; 180])])].
+Proof.
+  split; [vm_compute; reflexivity|]. split; [vm_compute; reflexivity|]. split; [vm_compute; reflexivity|].
+  eexists. eexists. eexists. split; [vm_compute; reflexivity|]. split; [vm_compute; reflexivity|].
+  split; [vm_compute; reflexivity|]. split; [vm_compute; reflexivity|]. split; vm_compute; reflexivity.
+Qed.
+(* ==== round3 c10fb end ==== *)
